@@ -155,6 +155,9 @@ func (s *verifC16Sim) newFile(ents []verifC16Ent) *verifC16File {
 		}
 	}
 	f.excl = allRD
+	if f.excl {
+		s.r.SetAdd("events", "table with exclusive (range tombstone sentinel) largest bound")
+	}
 	s.nextNum++
 	size := uint64(1 + s.rng.IntN(1<<16))
 	switch s.rng.IntN(12) {
@@ -468,6 +471,7 @@ func (s *verifC16Sim) install(added []*verifC16File, deleted bool, what string) 
 		}
 		if usable {
 			s.r.Count("sublevel_builds_incremental", 1)
+			s.r.SetAdd("events", "addL0Files compared with newL0Sublevels")
 			a, b := verifC16Shape(inc), verifC16Shape(sc)
 			if !slices.Equal(a, b) {
 				var diff []string
@@ -536,6 +540,7 @@ func (s *verifC16Sim) flush() {
 		d = append(d, f.String())
 	}
 	s.logf("flush -> %s", strings.Join(d, " | "))
+	s.r.SetAdd("events", fmt.Sprintf("flush into %d table(s)", min(len(files), 4)))
 	s.install(files, false, "flush")
 }
 
@@ -545,6 +550,7 @@ func (s *verifC16Sim) ingest() {
 	for _, e := range s.mem {
 		if e.key >= lo && e.key <= hi {
 			s.logf("ingest [%s,%s] overlaps the memtable: flush first", verifC16K(lo), verifC16K(hi))
+			s.r.SetAdd("events", "ingest forces a flush")
 			s.flush()
 			if s.failed {
 				return
@@ -572,6 +578,10 @@ func (s *verifC16Sim) ingest() {
 	f := s.newFile(ents)
 	s.l0 = append(s.l0, f)
 	s.logf("ingest -> %s", f)
+	s.r.SetAdd("events", "ingest into L0")
+	if uint64(f.meta.SeqNums.High) >= s.memStart && len(s.mem) > 0 {
+		s.r.SetAdd("events", "ingested table newer than the earliest unflushed seqnum while the memtable is non-empty")
+	}
 	s.install([]*verifC16File{f}, false, "ingest")
 }
 
@@ -836,6 +846,7 @@ func (s *verifC16Sim) pickBase() {
 		}
 		if grew {
 			s.r.Count("picks_base_extended", 1)
+			s.r.SetAdd("events", "ExtendL0ForBaseCompactionTo added tables")
 			after := overlapping(files)
 			if !slices.Equal(after, baseIn) {
 				s.violate("extend-touches-lbase", fmt.Sprintf("ExtendL0ForBaseCompactionTo(%s, %s) added L0 tables that overlap %d Lbase tables instead of %d", sm, la, len(after), len(baseIn)),
@@ -859,6 +870,7 @@ func (s *verifC16Sim) pickBase() {
 	}
 	s.logf("pick-base min_depth=%d -> L0 %s + %d Lbase tables", minDepth, strings.Join(names, ","), len(baseIn))
 	s.nPicks++
+	s.r.SetAdd("events", fmt.Sprintf("base pick with %d compaction(s) in progress", min(len(s.inprog), 3)))
 	if !s.virtual(c, what) {
 		return
 	}
@@ -895,6 +907,7 @@ func (s *verifC16Sim) pickIntra() {
 	s.logf("pick-intra min_depth=%d earliest_unflushed=%d -> L0 %s", minDepth, s.memStart, strings.Join(names, ","))
 	c := &verifC16Comp{l0: files, intra: true}
 	s.nPicks++
+	s.r.SetAdd("events", fmt.Sprintf("intra-L0 pick with %d compaction(s) in progress", min(len(s.inprog), 3)))
 	if !s.virtual(c, "PickIntraL0Compaction") {
 		return
 	}
